@@ -202,6 +202,11 @@ def main(argv=None):
         print("  " + v["msg"].replace("\n", "\n  ")[:1500])
         printed += 1
 
+    if m["n_violations"] > printed:
+        from collections import Counter
+        cls = Counter(json.dumps({k: v["sig"].get(k) for k in ("api", "oracle", "exc", "exc_at") if k in v["sig"]}, sort_keys=True)
+                      for v in m["violations"])
+        print("violation classes (of the %d kept): %s" % (len(m["violations"]), "; ".join("%dx %s" % (n, c) for c, n in cls.most_common(12))))
     kf = common.load_known_findings()
     for k, n in sorted(m["known_hits"].items()):
         what = next((e["what"] for e in kf.get("known", []) if e["id"] == k), k)
